@@ -284,7 +284,7 @@ def gen_fuzz_cases(r, tier, sds):
                 for dlt in ((-1, 0, 1, 7, 39) if (s is small or not quick) else (r.choice([0, 1, 1, 7, 19, 39]),)):
                     add(s[0], "T%d" % max(0, min(len(s[1]), c + dlt)), fmt, "trunc@boundary")
     # (d) random mix
-    for _ in range(900 if quick else 20000):
+    for _ in range(600 if quick else 20000):
         fmt = r.choice(fmts)
         cand = per_fmt[fmt]
         s = r.choice(sorted(cand, key=lambda s: len(s[1]))[: max(1, (len(cand) + 1) // 2)]) if r.random() < 0.7 else r.choice(cand)
